@@ -4,6 +4,7 @@ package main
 // their invariants, one reach condition per basic block, heap as SMT arrays.
 
 import (
+	"os"
 	"fmt"
 	"go/ast"
 	"go/constant"
@@ -948,11 +949,12 @@ func (ex *Exec) assignLoopOrdinals(fn *ssa.Function, ci *cfgInfo) {
 	}
 	sort.Slice(hs, func(i, j int) bool { return hs[i].Index < hs[j].Index })
 	used := map[int]bool{}
-	// outer loops have more blocks: assign them first to the outermost candidate
-	sort.SliceStable(hs, func(i, j int) bool { return len(ci.loops[hs[i]].blocks) > len(ci.loops[hs[j]].blocks) })
+	// Each SSA loop belongs to the smallest for/range statement whose span
+	// holds (nearly) all positioned instructions of the natural loop. Inner
+	// loops are assigned first so that an outer loop cannot take their statement.
+	sort.SliceStable(hs, func(i, j int) bool { return len(ci.loops[hs[i]].blocks) < len(ci.loops[hs[j]].blocks) })
 	for _, h := range hs {
 		li := ci.loops[h]
-		// positions of the instructions of the loop
 		var ps []token.Pos
 		for b := range li.blocks {
 			for _, in := range b.Instrs {
@@ -964,9 +966,7 @@ func (ex *Exec) assignLoopOrdinals(fn *ssa.Function, ci *cfgInfo) {
 		if len(ps) == 0 {
 			continue
 		}
-		// candidate statements: those whose span contains most of the positions; prefer
-		// the outermost unused statement that contains at least 80% of them
-		best, bestCover := -1, 0
+		best := -1
 		for i, l := range loops {
 			if used[i] {
 				continue
@@ -977,15 +977,21 @@ func (ex *Exec) assignLoopOrdinals(fn *ssa.Function, ci *cfgInfo) {
 					cover++
 				}
 			}
-			if cover*5 >= len(ps)*4 {
-				if best < 0 || (l.Pos() <= loops[best].Pos() && l.End() >= loops[best].End()) || cover > bestCover && !(loops[best].Pos() <= l.Pos() && loops[best].End() >= l.End()) {
-					best, bestCover = i, cover
+			if os.Getenv("GV_DEBUG_LOOPS") != "" {
+				fmt.Fprintf(os.Stderr, "  b%d cand %d [%s..%s] cover %d/%d\n", h.Index, i+1, ex.ld.posString(l.Pos()), ex.ld.posString(l.End()), cover, len(ps))
+			}
+			if cover*20 >= len(ps)*17 {
+				if best < 0 || (l.End()-l.Pos()) < (loops[best].End()-loops[best].Pos()) {
+					best = i
 				}
 			}
 		}
 		if best >= 0 {
 			li.ord = best + 1
 			used[best] = true
+		}
+		if os.Getenv("GV_DEBUG_LOOPS") != "" {
+			fmt.Fprintf(os.Stderr, "loop header b%d (%s) blocks=%d positions=%d -> ord %d\n", h.Index, h.Comment, len(li.blocks), len(ps), li.ord)
 		}
 	}
 }
